@@ -272,6 +272,55 @@ def check_view_reuse(chk, tmp):
                               {'kind': 'view-reuse', 'fmt': name})
 
 
+def check_zero_columns(chk, tmp):
+    """A table without any field (rows are empty tuples): with and without header record, with an explicit empty header."""
+    import petl as etl
+    t = [[], [], []]
+    for fmt, w, r in (('csv', etl.tocsv, etl.fromcsv), ('tsv', etl.totsv, etl.fromtsv), ('pickle', etl.topickle, etl.frompickle)):
+        for wh in (True, False):
+            for h in ((None,) if wh else ((), [])):
+                path = os.path.join(tmp, 'zero_%s.dat' % fmt)
+                chk.count(('zero-columns', fmt, wh, repr(h)))
+                chk.replayed += 1
+                try:
+                    w(t, path, write_header=wh)
+                    if fmt == 'pickle':
+                        back = [tuple(x) for x in r(path)]
+                        want = [()] * (3 if wh else 2)
+                    else:
+                        back = [tuple(x) for x in (r(path) if h is None else r(path, header=h))]
+                        want = [(), (), ()]
+                except Exception as e:
+                    back, want = 'raised %r' % (e,), None
+                if back != want:
+                    chk.violation({'op': 'from' + fmt, 'format': fmt, 'kind': 'zero-columns'},
+                                  '%s of a table without fields (2 data rows), write_header=%s, read with header=%r: %r, spec %r' % (fmt, wh, h, back, want),
+                                  {'kind': 'zero-columns', 'fmt': fmt})
+
+
+def check_json_large(chk, tmp):
+    """JSON round trips with MORE records than the header-discovery sample (1000 by default), and with a tiny sample."""
+    import petl as etl
+    for n, kw in ((1003, {}), (2001, {}), (5, {'sample': 2}), (5, {'sample': 1}), (1003, {'lines': True})):
+        t = [[u'f1', u'f2']] + [[i, u'v%d' % i] for i in range(n)]
+        path = os.path.join(tmp, 'big_%d.json' % n)
+        chk.count(('json-large', n, json.dumps(kw, sort_keys=True)))
+        chk.replayed += 1
+        try:
+            etl.tojson(t, path, **({'lines': True} if kw.get('lines') else {}))
+            back = [tuple(r) for r in etl.fromjson(path, **kw)]
+            back2 = [tuple(r) for r in etl.fromdicts(list(etl.dicts(t)), **{k: v for k, v in kw.items() if k == 'sample'})]
+        except Exception as e:
+            back, back2 = 'raised %r' % (e,), None
+        want = [tuple(r) for r in t]
+        if back != want or back2 != want:
+            bad = back if back != want else back2
+            d = next((i for i, (g, w_) in enumerate(zip(bad, want)) if g != w_), min(len(bad), len(want))) if isinstance(bad, list) else None
+            chk.violation({'op': 'fromjson', 'format': 'json', 'kind': 'json-large'},
+                          'tojson then fromjson(%r) of %d records: %s rows come back, first difference at row %s' % (kw, n, len(bad) if isinstance(bad, list) else bad, d),
+                          {'kind': 'json-large', 'n': n, 'kw': kw})
+
+
 def check_sources(chk):
     """Sources.tla: the decision table that maps a source argument to a source class, replayed on the real resolver."""
     from petl.io import sources as S
@@ -418,6 +467,8 @@ def run(tier, seed):
                 check_byte_concat(chk, cls, enc, DIALECTS[ci % len(DIALECTS)], tmp)
         check_boundaries(chk, tmp, full)
         check_view_reuse(chk, tmp)
+        check_json_large(chk, tmp)
+        check_zero_columns(chk, tmp)
     check_sources(chk)
     chk.sample({'kind': 'store-history', 'history': sel[0]})
     traces = record_traces(1500 if full else 250, seed)
